@@ -158,6 +158,21 @@ def u_mesh(ctx):
     ctx.concrete_equal("counts unchanged", (len(m.vertices), len(m.faces)), (4, 4))
 
 
+def u_mesh_overrides(ctx):
+    """explicit overrides travel with the mesh: a user-assigned centre of mass maps through M (density is kept)"""
+    kind = ctx.params["kind"]
+    m, V, vol = _tet(ctx)
+    _stub(ctx)
+    c = ctx.reals("c", 3, -50, 50)
+    rho = ctx.real("rho", 0.5, 5)
+    m.center_mass = c
+    m.density = rho
+    Mreal, M, Mi, det = _matrix(ctx, kind)
+    m.apply_transform(Mreal)
+    ctx.eq("overridden centre of mass maps through M", m.center_mass, lib.apply_h(M, c))
+    ctx.eq("density kept", m.density, rho)
+
+
 def u_mesh_inverse(ctx):
     kind = ctx.params["kind"]
     m, V, vol = _tet(ctx)
@@ -323,6 +338,9 @@ def units(tier):
         if not kd.startswith("near"):
             us.append(Unit("mesh-measures-%s" % kd, u_mesh, params={"kind": kd, "normals_first": False, "com": True, "mesh": "cat"}, key="mesh", functions=FM,
                            bounds="catalogue tetrahedron x matrix family '%s' (all parameter values): volume scales by |det|, centre of mass maps through M" % kd, subspace="catalogue mesh x " + kd, max_paths=300, wall_s=300, ob_ms=60000, feas_ms=800, group=False))
+    for kd in ["translate", "scale", "shear", "sim1"]:
+        us.append(Unit("mesh-overrides-%s" % kd, u_mesh_overrides, params={"kind": kd, "mesh": "cat"}, key="mesh-overrides", functions=FM + [F + "base.Trimesh.center_mass", F + "base.Trimesh.density"],
+                       bounds="catalogue tetrahedron with a symbolic centre-of-mass override and density x matrix family '%s'" % kd, max_paths=200, wall_s=300, ob_ms=60000, feas_ms=800, group=False))
     for kd in (["translate", "scale", "shear"] + (["sim1", "sim4"] if T else [])):
         us.append(Unit("mesh-inverse-%s" % kd, u_mesh_inverse, params={"kind": kd}, key="mesh-inverse", functions=FM, bounds="symbolic tetrahedron x matrix family '%s' then its exact inverse" % kd, max_paths=300, wall_s=300, ob_ms=60000, feas_ms=800, group=False))
     for a, b in ([("scale", "translate"), ("shear", "scale"), ("translate", "shear")] + ([("translate", "sim4"), ("scale", "scale"), ("sim1", "shear"), ("sim1", "scale")] if T else [])):
